@@ -6,6 +6,7 @@ mod c04;
 mod c05;
 mod c06;
 mod c07;
+mod c08;
 mod c11;
 mod c12;
 mod c14;
@@ -39,6 +40,8 @@ fn main() {
                 "C05" => c05::run(&args, &mut rec),
                 "C06" => c06::run(&args, &mut rec),
                 "C07" => c07::run(&args, &mut rec),
+                "C08" => c08::run_c08(&args, &mut rec),
+                "C09" => c08::run_c09(&args, &mut rec),
                 "C11" => c11::run(&args, &mut rec),
                 "C12" => c12::run(&args, &mut rec),
                 "C13" => c13::run(&args, &mut rec),
